@@ -171,8 +171,11 @@ theorem not_holds_of_apiAcceptsLongName (cfg : Cfg) (h : cfg.rejectsLongName = t
   simp [h'] at this
 
 /-- wherever a block holding one of these two accepted entries sits in a file, `LoadIndex` of the
-    whole file fails with `ErrEmptyKey`: every record of the swamp becomes unreadable -/
-theorem badEntry_poisons_file (cfg : Cfg) (codec : Codec) (crc : Checksum) (h : FileHeader) (name : Bytes)
+    whole file fails with `ErrEmptyKey`: every record of the swamp becomes unreadable.  (With the
+    zero-filled-tail rule the same block, when it is the last one and ends in a zero byte — an
+    empty payload does — is silently taken for the end of the data instead: the record is lost
+    without an error; `readNextBlock_of_core_err`.) -/
+theorem badEntry_poisons_file (cfg : Cfg) (hzt : cfg.zeroTailIsEOF = false) (codec : Codec) (crc : Checksum) (h : FileHeader) (name : Bytes)
     (before : List (List Entry)) (tail : Bytes) (e : Entry) (he : e = emptyKeyEntry ∨ e = longKeyEntry)
     (hv : h.Valid) (hn : NameOk h name) (hg : ∀ b ∈ before, GoodBlock b) :
     loadIndex cfg codec.toDecoder crc
@@ -181,7 +184,8 @@ theorem badEntry_poisons_file (cfg : Cfg) (codec : Codec) (crc : Checksum) (h : 
   apply loadIndex_poisoned cfg codec crc h name before [e] tail hv hn hg
   have hsz : sizeSum [e] < 2 ^ 31 + 2 ^ 17 := by
     rcases he with h | h <;> subst h <;> simp [sizeSum, Entry.size, emptyKeyEntry, longKeyEntry, longKey_length]
-  rw [readNextBlock_encodeBlock_gen cfg codec crc [e] tail (by simp) hsz]
+  apply readNextBlock_of_core_err' _ (fun _ => csize_encodeBlock_ne_zero codec crc [e] tail hsz (by simp)) hzt
+  rw [readNextBlockCore_encodeBlock_gen cfg codec crc [e] tail (by simp) hsz]
   have : parseEntries 1 (encodeEntries [e]) = .error .emptyKey := by
     have hd : decodeEntry (encodeEntries [e]) = .error .emptyKey := by
       rcases he with h | h <;> subst h
@@ -571,6 +575,15 @@ structure Facts where
   /-- `openExistingFile` truncates the file behind the last complete block (proved to be the identity
       on every file the writer leaves behind: `openExisting_ok`) -/
   openCutsTornTail : Tri
+  /-- the walk stops at a zero size field (`next == end+BlockHeaderSize`) -/
+  openStopsAtZeroSize : Tri
+  /-- a header of 64 zero bytes: the file is replaced by a fresh one (`startOver`) -/
+  openRestartsZeroHeader : Tri
+  /-- the last walked block is cut as well when its checksum does not match (`blockIntactAt`) -/
+  openChecksLastBlock : Tri
+  /-- open fails and leaves the file alone when an intact block lies behind the cut point
+      (`intactBlockBehind`) -/
+  openSparesMidDamage : Tri
   /-- `createNewFile` refuses a swamp name longer than 65535 bytes (the C29 fact) -/
   writerRejectsLongName : Tri
   /-- `isValidSwampName` bounds the name length by 65535 -/
@@ -588,7 +601,8 @@ def cfgOf (f : Facts) : Cfg :=
     apiValidatesKeys := f.apiValidatesKeys.isYes
     rejectsLongName := f.writerRejectsLongName.isYes
     apiBoundsNameLength := f.apiBoundsNameLength.isYes
-    openCutsTornTail := f.openCutsTornTail.isYes }
+    openCutsTornTail := f.openCutsTornTail.isYes
+    openStopsAtZeroSize := f.openStopsAtZeroSize.isYes }
 
 /-- the model's fixed layout is the code's layout -/
 def layoutOk (f : Facts) : Bool :=
@@ -603,6 +617,13 @@ def hasUnknown (f : Facts) : Bool :=
   f.writerRejectsLongName == .unknown || (f.writerRejectsLongName == .yes && f.apiBoundsNameLength == .unknown) ||
   (f.chronSurfacesError != .yes && f.apiValidatesKeys != .yes && (f.chronSurfacesError == .unknown || f.apiValidatesKeys == .unknown))
 
+/-- the branches of `openExistingFile` for files the writer alone never leaves behind: whether they
+    are there does not matter to `Holds` (`openExisting_ok`: none is taken on a writer-produced
+    file), an unrecognised shape of that code does -/
+def openUnknown (f : Facts) : Bool :=
+  f.openStopsAtZeroSize == .unknown || f.openRestartsZeroHeader == .unknown ||
+  f.openChecksLastBlock == .unknown || f.openSparesMidDamage == .unknown
+
 def findings (f : Facts) : List String :=
   (if f.rejectsEmptyKey == .no then ["C01-empty-key-accepted"] else []) ++
   (if f.rejectsLongKey == .no then ["C01-long-key-accepted"] else []) ++
@@ -613,6 +634,7 @@ def findings (f : Facts) : List String :=
 
 def classify (f : Facts) : Verdict :=
   if !layoutOk f then .undetermined "storage layout facts (field widths / flush order / metadata handling / per-entry flush in WriteEntries and compaction / scan-to-EOF) differ from the model"
+  else if openUnknown f then .undetermined "openExistingFile (zero header / torn-tail walk / last-block check / mid-file damage) was not recognised"
   else if hasUnknown f then .undetermined "a WriteEntry / WriteBuffer.Add / LoadIndex pattern was not recognised"
   else if !(findings f).isEmpty then .violated (findings f)
   else .holds
@@ -626,47 +648,49 @@ theorem classify_sound (f : Facts) : (classify f).Sound (Holds (cfgOf f)) (Parti
   · trivial
   · split
     · trivial
-    · rename_i hl hu
-      simp only [hasUnknown, Bool.or_eq_true, beq_iff_eq, not_or] at hu
-      obtain ⟨⟨⟨⟨⟨⟨⟨⟨hu1, hu2⟩, _⟩, hu4⟩, hu5⟩, _⟩, hu7⟩, hu8⟩, hu6⟩ := hu
-      have hpart : Partial f := by
-        intro hd
-        exact replays_partial (cfgOf f) (by simp [cfgOf, hd, Tri.isYes])
-      split
-      · rename_i hf
-        refine ⟨?_, hpart⟩
-        by_cases h1 : f.rejectsEmptyKey = .no
-        · exact not_holds_of_acceptsEmptyKey _ (by simp [cfgOf, h1, Tri.isYes])
-        · by_cases h2 : f.rejectsLongKey = .no
-          · exact not_holds_of_acceptsLongKey _ (by simp [cfgOf, h2, Tri.isYes])
-          · by_cases h3 : f.deleteRemoves = .no
-            · exact not_holds_of_noDelete _ (by simp [cfgOf, h3, Tri.isYes])
-            · by_cases h4 : f.flushAtCount = .no
-              · exact not_holds_of_noCountFlush _ (by simp [cfgOf, h4, Tri.isYes])
-              · by_cases h5 : f.chronSurfacesError = .no ∧ f.apiValidatesKeys = .no
-                · exact not_holds_of_silentDrop _ (by simp [cfgOf, h5.1, Tri.isYes]) (by simp [cfgOf, h5.2, Tri.isYes])
-                · by_cases h6 : f.writerRejectsLongName = .yes ∧ f.apiBoundsNameLength = .no
-                  · exact not_holds_of_apiAcceptsLongName _ (by simp [cfgOf, h6.1, Tri.isYes]) (by simp [cfgOf, h6.2, Tri.isYes])
-                  · exfalso
-                    have e5 : (f.chronSurfacesError == .no && f.apiValidatesKeys == .no) = false := by
-                      cases ha : f.chronSurfacesError <;> cases hb : f.apiValidatesKeys <;> simp_all
-                    have e6 : (f.writerRejectsLongName == .yes && f.apiBoundsNameLength == .no) = false := by
-                      cases ha : f.writerRejectsLongName <;> cases hb : f.apiBoundsNameLength <;> simp_all
-                    simp [findings, h1, h2, h3, h4, e5, e6] at hf
-      · rename_i hf
-        have h1 : f.rejectsEmptyKey = .yes := by
-          cases h : f.rejectsEmptyKey <;> simp_all [findings]
-        have h2 : f.rejectsLongKey = .yes := by
-          cases h : f.rejectsLongKey <;> simp_all [findings]
-        have h3 : f.deleteRemoves = .yes := by
-          cases h : f.deleteRemoves <;> simp_all [findings]
-        have h4 : f.flushAtCount = .yes := by
-          cases h : f.flushAtCount <;> simp_all [findings]
-        have h5 : f.chronSurfacesError.isYes = true ∨ f.apiValidatesKeys.isYes = true := by
-          cases ha : f.chronSurfacesError <;> cases hb : f.apiValidatesKeys <;> simp_all [findings, Tri.isYes]
-        have h6 : f.writerRejectsLongName.isYes = true → f.apiBoundsNameLength.isYes = true := by
-          cases ha : f.writerRejectsLongName <;> cases hb : f.apiBoundsNameLength <;> simp_all [findings, Tri.isYes]
-        exact holds_of_good _ ⟨by simp [cfgOf, h1, Tri.isYes], by simp [cfgOf, h2, Tri.isYes],
-          by simp [cfgOf, h3, Tri.isYes], by simp [cfgOf, h4, Tri.isYes], by simpa [cfgOf] using h5, by simpa [cfgOf] using h6⟩
+    · split
+      · trivial
+      · rename_i hl ho hu
+        simp only [hasUnknown, Bool.or_eq_true, beq_iff_eq, not_or] at hu
+        obtain ⟨⟨⟨⟨⟨⟨⟨⟨hu1, hu2⟩, _⟩, hu4⟩, hu5⟩, _⟩, hu7⟩, hu8⟩, hu6⟩ := hu
+        have hpart : Partial f := by
+          intro hd
+          exact replays_partial (cfgOf f) (by simp [cfgOf, hd, Tri.isYes])
+        split
+        · rename_i hf
+          refine ⟨?_, hpart⟩
+          by_cases h1 : f.rejectsEmptyKey = .no
+          · exact not_holds_of_acceptsEmptyKey _ (by simp [cfgOf, h1, Tri.isYes])
+          · by_cases h2 : f.rejectsLongKey = .no
+            · exact not_holds_of_acceptsLongKey _ (by simp [cfgOf, h2, Tri.isYes])
+            · by_cases h3 : f.deleteRemoves = .no
+              · exact not_holds_of_noDelete _ (by simp [cfgOf, h3, Tri.isYes])
+              · by_cases h4 : f.flushAtCount = .no
+                · exact not_holds_of_noCountFlush _ (by simp [cfgOf, h4, Tri.isYes])
+                · by_cases h5 : f.chronSurfacesError = .no ∧ f.apiValidatesKeys = .no
+                  · exact not_holds_of_silentDrop _ (by simp [cfgOf, h5.1, Tri.isYes]) (by simp [cfgOf, h5.2, Tri.isYes])
+                  · by_cases h6 : f.writerRejectsLongName = .yes ∧ f.apiBoundsNameLength = .no
+                    · exact not_holds_of_apiAcceptsLongName _ (by simp [cfgOf, h6.1, Tri.isYes]) (by simp [cfgOf, h6.2, Tri.isYes])
+                    · exfalso
+                      have e5 : (f.chronSurfacesError == .no && f.apiValidatesKeys == .no) = false := by
+                        cases ha : f.chronSurfacesError <;> cases hb : f.apiValidatesKeys <;> simp_all
+                      have e6 : (f.writerRejectsLongName == .yes && f.apiBoundsNameLength == .no) = false := by
+                        cases ha : f.writerRejectsLongName <;> cases hb : f.apiBoundsNameLength <;> simp_all
+                      simp [findings, h1, h2, h3, h4, e5, e6] at hf
+        · rename_i hf
+          have h1 : f.rejectsEmptyKey = .yes := by
+            cases h : f.rejectsEmptyKey <;> simp_all [findings]
+          have h2 : f.rejectsLongKey = .yes := by
+            cases h : f.rejectsLongKey <;> simp_all [findings]
+          have h3 : f.deleteRemoves = .yes := by
+            cases h : f.deleteRemoves <;> simp_all [findings]
+          have h4 : f.flushAtCount = .yes := by
+            cases h : f.flushAtCount <;> simp_all [findings]
+          have h5 : f.chronSurfacesError.isYes = true ∨ f.apiValidatesKeys.isYes = true := by
+            cases ha : f.chronSurfacesError <;> cases hb : f.apiValidatesKeys <;> simp_all [findings, Tri.isYes]
+          have h6 : f.writerRejectsLongName.isYes = true → f.apiBoundsNameLength.isYes = true := by
+            cases ha : f.writerRejectsLongName <;> cases hb : f.apiBoundsNameLength <;> simp_all [findings, Tri.isYes]
+          exact holds_of_good _ ⟨by simp [cfgOf, h1, Tri.isYes], by simp [cfgOf, h2, Tri.isYes],
+            by simp [cfgOf, h3, Tri.isYes], by simp [cfgOf, h4, Tri.isYes], by simpa [cfgOf] using h5, by simpa [cfgOf] using h6⟩
 
 end Hv.C01
